@@ -13,7 +13,7 @@ import re
 
 import vlib
 
-LEVEL = "translation_validation"
+LEVEL = "proof"
 
 THEOREMS = [
     "Mpc.absOp_sound",
